@@ -146,8 +146,16 @@ func Assume(c bool) {
 	}
 }
 
+// labelPrefix restricts which assertions are live natively, exactly as in the
+// engine: a check discharges the labels of its own property only.
+var labelPrefix = os.Getenv("VERIF_LABEL_PREFIX")
+
+func live(label string) bool {
+	return labelPrefix == "" || strings.HasPrefix(label, labelPrefix+" ") || strings.HasPrefix(label, "SUMMARY ")
+}
+
 func Assert(c bool, label string) {
-	if !c {
+	if !c && live(label) {
 		panic(Failure{"assert", label})
 	}
 }
@@ -155,7 +163,7 @@ func Assert(c bool, label string) {
 // AssertFinding is an Assert that isolates one anticipated defect class; the
 // engine matches id against known_findings.json.
 func AssertFinding(id string, c bool, label string) {
-	if !c {
+	if !c && live(label) {
 		panic(Failure{"assert", label})
 	}
 }
@@ -353,3 +361,12 @@ func SharesMemory(root any, buf []byte) bool { return false }
 
 // Unshare ends the lockset logging started by Share (engine only).
 func Unshare() {}
+
+// Acquisitions is the number of times the path has locked (Lock or RLock) the
+// mutex mu points to (engine only; natively 0).
+func Acquisitions(mu any) int { return 0 }
+
+// AssertEngine is an assertion about one of the engine's models (held locks,
+// critical sections, the heap graph); it has no native counterpart and a
+// violation is reported without native replay.
+func AssertEngine(c bool, label string) {}
